@@ -476,6 +476,9 @@ func (matrix *SparseReal64Matrix) PermuteRows(pi []int) error {
   if n != m {
     return fmt.Errorf("SymmetricPermutation(): matrix is not a square matrix")
   }
+  if len(pi) != n {
+    return fmt.Errorf("PermuteRows(): permutation has length %d, matrix has dimension %d", len(pi), n)
+  }
   // permute matrix
   for i := 0; i < n; i++ {
     if pi[i] < 0 || pi[i] > n {
@@ -492,6 +495,9 @@ func (matrix *SparseReal64Matrix) PermuteColumns(pi []int) error {
   if n != m {
     return fmt.Errorf("SymmetricPermutation(): matrix is not a square matrix")
   }
+  if len(pi) != n {
+    return fmt.Errorf("PermuteColumns(): permutation has length %d, matrix has dimension %d", len(pi), n)
+  }
   // permute matrix
   for i := 0; i < m; i++ {
     if pi[i] < 0 || pi[i] > n {
@@ -507,6 +513,9 @@ func (matrix *SparseReal64Matrix) SymmetricPermutation(pi []int) error {
   n, m := matrix.Dims()
   if n != m {
     return fmt.Errorf("SymmetricPermutation(): matrix is not a square matrix")
+  }
+  if len(pi) != n {
+    return fmt.Errorf("SymmetricPermutation(): permutation has length %d, matrix has dimension %d", len(pi), n)
   }
   for i := 0; i < n; i++ {
     if pi[i] < 0 || pi[i] > n {
